@@ -18,7 +18,7 @@ from . import common
 ID = "C10"
 RUNS = {"quick": 9000, "thorough": 500000}
 TIME = {"quick": 75, "thorough": 1500}
-RULES = ("STV", "STV", "IRV", "SequentialRCV", "Plurality", "SNTV", "Borda", "TopTwo", "Alaska", "Alaska", "CondoBorda",
+RULES = ("STV", "STV", "IRV", "SequentialRCV", "Plurality", "SNTV", "Borda", "TopTwo", "Alaska", "Alaska", "CondoBorda", "CondoBorda",
          "DominatingSets", "GeneralRating", "Rating", "Limited", "Cumulative", "Approval", "BlocPlurality")
 RULE_TEXT = (
     "case = seeded (profile, non-random rule, configuration, tiebreak in {None,random,borda,first_place}) executed under 4 opposing schedules "
